@@ -210,7 +210,7 @@ def toSel : Nat → SX → Sel
         (match (SX.node "Col" fs).field "expr" with
          | .node n fs' =>
            (match setopKind n with
-            | some k => some (.col (.setop k (toSels fuel ((SX.node n fs').field "selects").items)) ((SX.node "Col" fs).field "alias").text)
+            | some k => some (.col (.setOp k (toSels fuel ((SX.node n fs').field "selects").items)) ((SX.node "Col" fs).field "alias").text)
             | none => optExpr fuel (x.field "from"))
          | _ => optExpr fuel (x.field "from"))
       | f => optExpr fuel f
